@@ -2,6 +2,7 @@
 import ast
 import re
 
+from .. import miniev as ME
 from .. import rules_filters as RF
 from .. import rx
 from ..astutil import Guards, enum_paths, src, is_name, is_attr, local_defs, yields_in, sym_path, fact_in, path_feasible
@@ -51,6 +52,7 @@ def run(ctx):
     check_case_decisions(ctx, T)
     check_strip_comments(ctx, T)
     check_placement(ctx)
+    check_strip_simulation(ctx)
     from .. import rules_tree as RT2
     ctx.rule('R8.5', 'strip_comments reaches every comment: the filter descends into every group (get_sublists yields every group child)', floor=3)
     RT2.check_filter_descends(ctx, 'R8.5', RF.filter_class(ctx, 'StripCommentsFilter'))
@@ -582,3 +584,134 @@ def check_placement(ctx):
             if isinstance(a, ast.Call) and cn.endswith('CaseFilter'):
                 ok = len(a.args) == 1 and src(a.args[0]) == f"options['{opt[cn]}']"
                 ctx.ob('R8.4', f'argument:{cn}', f'{b.mod.relpath}:{ps[0]["line"]}', f'{cn} receives the validated option value', ok, f'`{src(a)}`')
+
+
+# ---------------------------------------------------------------------------
+# R8.6: StripCommentsFilter.process interpreted on small trees
+
+def _sc_shapes():
+    import itertools
+    flat = []
+    for n_ in range(1, 5):
+        for p in itertools.product('clhwx', repeat=n_):
+            s_ = ''.join(p)
+            if 'xx' in s_:
+                continue
+            flat.append(list(s_))
+    shapes = [('statement', sh) for sh in flat]
+    short = [sh for sh in flat if len(sh) <= 3]
+    for sh in short:
+        if sh[0] != 'x':
+            shapes.append(('first child of a nested group', ['x', ('T', list(sh))]))
+        shapes.append(('nested group', ['x', 'w', ('T', list(sh)), 'w', 'x']))
+        shapes.append(('parenthesis', ['x', ('P', ['('] + list(sh) + [')'])]))
+    # comment groups as group_comments / align_comments build them
+    groups = [['c', 'c'], ['c', 'h'], ['h', 'c'], ['l', 'l'], ['l', 'h'], ['c', 'n', 'c'], ['c', 'n', 'h'], ['h', 'n', 'c'],
+              ['c', 'w', ('G', ['h'])], ['h', 'w', ('G', ['c'])], ['c', 'w', ('G', ['c'])], ['c', 'w', ('G', ['c', 'w', ('G', ['h'])])],
+              ['c'], ['h'], ['l']]
+    for g in groups:
+        shapes.append(('comment group', ['x', 'w', ('G', g), 'w', 'x']))
+        shapes.append(('comment group', [('G', g), 'w', 'x']))
+        shapes.append(('comment group', ['x', ('G', g), 'x']))
+        shapes.append(('comment group in parenthesis', ['x', ('P', ['(', ('G', g), 'x', ')'])]))
+    return shapes
+
+
+def check_strip_simulation(ctx):
+    """strip_comments decided on concrete small trees: the source of StripCommentsFilter.process (and of every TokenList helper it
+    calls) is interpreted on each tree; afterwards no ordinary comment is left, every hint and every other significant token is
+    still there in order, two names that were apart are still apart, and a second run changes nothing."""
+    repo = ctx.repo
+    ctx.rule('R8.6', 'StripCommentsFilter.process interpreted on small token trees: all ordinary comments gone, hints and other tokens kept, no fusion, idempotent', floor=1)
+    c = RF.filter_class(ctx, 'StripCommentsFilter')
+    f = c.methods['process']
+    loc = f'{f.mod.relpath}:{f.node.lineno}'
+    CM, CS, HINT = TT(('Comment', 'Multiline')), TT(('Comment', 'Single')), TT(('Comment', 'Multiline', 'Hint'))
+    WSP, NL, NAME, PUN, COMMENT = TT(('Text', 'Whitespace')), TT(('Text', 'Whitespace', 'Newline')), TT(('Name',)), TT(('Punctuation',)), TT(('Comment',))
+    classes = {'G': repo.classes.get('sqlparse.sql.Comment'), 'P': repo.classes.get('sqlparse.sql.Parenthesis'), 'T': repo.classes.get('sqlparse.sql.Identifier'),
+               'S': repo.classes.get('sqlparse.sql.Statement')}
+    ctx.need(all(classes.values()), 'sqlparse.sql.Comment / Parenthesis / Identifier / Statement not found')
+    mk = {'c': (CM, '/*c*/'), 'l': (CS, '-- c\n'), 'h': (HINT, '/*+ h */'), 'w': (WSP, ' '), 'n': (NL, '\n'), 'x': (NAME, 'x'), '(': (PUN, '('), ')': (PUN, ')')}
+
+    def build(shape):
+        out = []
+        for s_ in shape:
+            if isinstance(s_, str):
+                t_ = ME.AbsToken(repo, ttype=mk[s_][0], value=mk[s_][1])
+                t_.parent = None
+                out.append(t_)
+            else:
+                out.append(group(classes[s_[0]], build(s_[1])))
+        return out
+
+    def group(cls, kids):
+        g = ME.AbsToken(repo, cls=cls)
+        g.tokens, g.parent, g.is_whitespace = kids, None, False
+        g.value = ''.join(k.value for k in kids)
+        for k in kids:
+            k.parent = g
+        return g
+
+    def leaves(t):
+        if t.is_group:
+            for k in t.tokens:
+                yield from leaves(k)
+        else:
+            yield t
+
+    def show(shape):
+        return ''.join(s_ if isinstance(s_, str) else f'{s_[0]}[{show(s_[1])}]' for s_ in shape).replace('\n', '\\n')
+
+    def run(st):
+        ev = ME.Evaluator(ctx, f.mod, c)
+        ev.effects = True
+        ME.run_function(ev, f.node, {f.params[0]: ME.Obj(_cls=c), f.params[1]: st}, max_steps=2000)
+
+    bad, n, unsupported = [], 0, None
+    for where, shape in _sc_shapes():
+        st = group(classes['S'], build(shape))
+        before = list(leaves(st))
+        try:
+            run(st)
+            after = list(leaves(st))
+            vals1 = [t.value for t in after]
+            run(st)
+            vals2 = [t.value for t in leaves(st)]
+        except (ME.Unsupported, ME.Unknown) as e:
+            unsupported = f'{show(shape)}: {e}'
+            break
+        except ME.Crash as e:
+            bad.append(f'{show(shape)} ({where}): crash {e}')
+            continue
+        n += 1
+        why = None
+        left = [t for t in after if t.ttype is not None and COMMENT.contains(t.ttype) and t.ttype[-1] != 'Hint']
+        keep_b = [t for t in before if not (t.ttype is not None and (COMMENT.contains(t.ttype) and t.ttype[-1] != 'Hint' or WSP.contains(t.ttype)))]
+        keep_a = [t for t in after if not (t.ttype is not None and (COMMENT.contains(t.ttype) and t.ttype[-1] != 'Hint' or WSP.contains(t.ttype)))]
+        if left:
+            why = f'{len(left)} ordinary comment(s) left'
+        elif len(keep_a) != len(keep_b) or any(a is not b for a, b in zip(keep_a, keep_b)):
+            lost = [t.value for t in keep_b if not any(t is a for a in keep_a)]
+            why = f'token(s) lost or reordered: {lost}'
+        else:
+            for a, b in zip(after, after[1:]):
+                if a.ttype is not None and b.ttype is not None and NAME.contains(a.ttype) and NAME.contains(b.ttype):
+                    why = 'two names that were apart are fused'
+            if why is None and vals1 != vals2:
+                why = f'a second run changes the result: {"".join(vals1)!r} -> {"".join(vals2)!r}'
+        if why:
+            bad.append(f'{show(shape)} ({where}) -> {"".join(vals1)!r}: {why}')
+    if unsupported is not None:
+        ctx.note(f'R8.6 simulation not evaluable on this tree ({unsupported}); the structural rules R8.3 stand alone')
+        ctx.ob('R8.6', 'simulation', loc, 'strip_comments simulation evaluable', True)
+        return
+    ctx.info['strip_comments_simulated_trees'] = n
+    ctx.need(n >= 1000, f'strip_comments simulation ran on {n} trees only')
+    # one obligation per distinct failure class so that known findings can be keyed
+    classes_ = {}
+    for b in bad:
+        classes_.setdefault(b.rsplit(': ', 1)[1].split(':')[0][:40], []).append(b)
+    ctx.ob('R8.6', 'simulation', loc, f'{n} trees (flat statements up to 4 children, nested groups, parentheses, comment groups): '
+           'ordinary comments removed, hints and other tokens kept in order, no fusion, idempotent', not bad,
+           f'{len(bad)} tree(s) violate it (c block comment, l line comment, h hint, w blank, n newline, x name; G comment group, T nested group, '
+           f'P parenthesis), e.g. ' + ' | '.join(v[0] for v in list(classes_.values())[:4]))
